@@ -303,21 +303,26 @@ class Runner:
         m4 = 4 * g["m"]
         return [("s", g["m"], int(idx[0] % m4), int(i)) for i in idx]
 
-    def register_noise(self, g, values, what):
+    def register_noise(self, g, values, what, T):
+        """Noise values seen at the samples T of grid g.  Two observations are compared when they are at
+        the same lattice point AND the two float times are equal (always, on a dyadic lattice; on an
+        arbitrary lattice two expressions of one lattice time may differ by an ulp, and pyrex's FFT noise
+        is discontinuous at its period seam, see `histories`)."""
         tol = self.tol_noise()
         shared = 0
-        for key, v in zip(self.noise_keys(g), values):
-            v = float(v)
+        for key, v, t in zip(self.noise_keys(g), values, T):
+            v, t = float(v), float(t)
             if key in self.noise:
-                shared += 1
-                require(abs(self.noise[key] - v) <= tol,
-                        "%s: %s sees noise %r at lattice time %r where an earlier query of the same "
-                        "noise realisation saw %r (tolerance %.3g)", self.where(), what, v, key,
-                        self.noise[key], tol)
+                if self.noise[key][1] == t:
+                    shared += 1
+                    require(abs(self.noise[key][0] - v) <= tol,
+                            "%s: %s sees noise %r at time %r (lattice %r) where an earlier query of the same "
+                            "noise realisation saw %r (tolerance %.3g)", self.where(), what, v, t, key,
+                            self.noise[key][0], tol)
             else:
-                self.noise[key] = v
-            if self.noise_old is not None and key in self.noise_old:
-                self.reset_diffs.append((self.noise_old[key], v))
+                self.noise[key] = (v, t)
+            if self.noise_old is not None and key in self.noise_old and self.noise_old[key][1] == t:
+                self.reset_diffs.append((self.noise_old[key][0], v))
         if shared:
             self.classes.add("noise_shared")
         self.check_reset_differs()
@@ -328,7 +333,10 @@ class Runner:
             return
         old = np.array([a for a, _ in d])
         new = np.array([b for _, b in d])
-        if not (np.any(old != 0) and np.any(new != 0)):
+        # a band above the Nyquist frequency of the master grid gives an all-zero realisation (what is
+        # observed is then only the rounding of "waveform minus signals"): nothing to distinguish
+        floor = 1e-3 * self.norm * self.rms
+        if not (float(np.max(np.abs(old))) > floor and float(np.max(np.abs(new))) > floor):
             self.classes.add("noise_degenerate")
             return
         self.classes.add("noise_reset_compared")
@@ -580,7 +588,7 @@ class Runner:
                     int(np.argmax(np.abs(vals - ref))), float(vals[int(np.argmax(np.abs(vals - ref)))]),
                     float(ref[int(np.argmax(np.abs(vals - ref)))]), tol)
         else:
-            self.register_noise(g, vals - ref, "full_waveform")
+            self.register_noise(g, vals - ref, "full_waveform", T)
         self.classify_window(g, T)
         return T, vals, ref
 
@@ -635,8 +643,9 @@ class Runner:
         require(np.array_equal(np.asarray(mn.times, dtype=float), T),
                 "%s: make_noise is not on the requested window", self.where())
         vals = np.asarray(mn.values, dtype=float)
-        self.register_noise(g, vals, "make_noise")
-        if self.sysd is not None:
+        self.register_noise(g, vals, "make_noise", T)
+        if self.sysd is not None and self.dyadic:
+            # (dyadic only: the reference lead-in must consist of the same floats as pyrex's)
             err = float(np.max(np.abs(vals - self.reference_noise(T))))
             require(err <= self.tol_noise(),
                     "%s: system make_noise differs from the front end applied to the antenna's noise on a "
